@@ -385,7 +385,8 @@ class SimBackend(object):
         except milp_stub.StubUnsupported as e:
             rec['unsupported'] = str(e)
             if fault is not None:
-                raise HarnessError('stub unsupported under fault: %s' % e)
+                return self._inject_without_enumeration(solver, lp, rec,
+                                                        fault, tl, kw)
             return self._real(solver, lp, rec, kw)
         except pulp.PulpSolverError as e:
             # duplicate variable names: let real CBC judge the program; the
@@ -525,6 +526,64 @@ class SimBackend(object):
         elif vm == 'garbage':
             vals = dict((v.name, float(self.rng.randint(0, 2))) for v in vs)
         else:   # stale: whatever the previous round left
+            vals = dict((v.name, (v.varValue if v.varValue is not None
+                                  else 0.0)) for v in vs)
+        lp.assignVarsVals(vals)
+        lp.assignStatus(STATUS_CODE[name])
+        rec['status'] = name
+        self.log('backend.fault', (rec['round'], kind, vm))
+        return lp.status
+
+    def _inject_without_enumeration(self, solver, lp, rec, fault, tl, kw):
+        """The program is outside the stand-in's fragment (a continuous
+        variable, say): faults are still injected, with real CBC supplying
+        the genuine answer / the incumbent where one is needed."""
+        kind = fault['kind']
+        rec['fault'] = kind
+        self.fired[kind] = self.fired.get(kind, 0) + 1
+        d = self._duration(tl)
+        if kind == 'byzantine':
+            M = self.byz_provider()
+            ids, pairs, n1, _t = self.pairs_provider(lp)
+            want = set((i + 1, p) for i, p in enumerate(M) if p)
+            idpos = dict((i, k) for k, i in enumerate(ids))
+            vals = {}
+            for v in lp.variables():
+                k = idpos.get(id(v))
+                vals[v.name] = 1.0 if (k is not None and
+                                       pairs[k] in want) else 0.0
+            lp.assignVarsVals(vals)
+            lp.assignStatus(pulp.LpStatusOptimal, pulp.LpSolutionOptimal)
+            self.clock.advance(d)
+            rec['status'] = 'Optimal'
+            rec['chosen'] = tuple(M)
+            self.log('backend.fault', (rec['round'], kind, list(M)))
+            return lp.status
+        if kind == 'tl-incumbent':
+            self._real(solver, lp, rec, kw)
+            rec['fault'] = kind
+            self.clock.advance(max(d, self._tl_stop_duration(tl)))
+            if lp.status == pulp.LpStatusOptimal:
+                lp.assignStatus(pulp.LpStatusOptimal,
+                                pulp.LpSolutionIntegerFeasible)
+                rec['status'] = 'Optimal'
+            else:
+                rec['fault'] = None
+            self.log('backend.fault', (rec['round'], kind, 'real-incumbent'))
+            return lp.status
+        if kind == 'tl-no-incumbent':
+            self.clock.advance(max(d, self._tl_stop_duration(tl)))
+            name = 'Not Solved'
+        else:
+            self.clock.advance(d)
+            name = kind.split(':', 1)[1]
+        vm = fault.get('values', 'zeros')
+        vs = lp.variables()
+        if vm == 'zeros':
+            vals = dict((v.name, 0.0) for v in vs)
+        elif vm == 'garbage':
+            vals = dict((v.name, float(self.rng.randint(0, 2))) for v in vs)
+        else:
             vals = dict((v.name, (v.varValue if v.varValue is not None
                                   else 0.0)) for v in vs)
         lp.assignVarsVals(vals)
